@@ -8,6 +8,8 @@ package xbus
 //@   immutable: p s closeQ sendQ
 //@
 //@ struct socket
+//@   close_token closeQ when closed
+//@   close_token sizeQ
 //@   lock Mutex level 20
 //@   guarded_by Mutex: closed sizeQ pipes recvQLen sendQLen recvExpire recvQ
 //@   immutable: closeQ
@@ -67,3 +69,6 @@ package xbus
 //@
 //@ func (*socket).AddPipe
 //@   before call:SetPrivate#1 assert cap(p.sendQ) == s.sendQLen
+//@
+//@ func (*socket).RemovePipe
+//@   may_close p.closeQ caller
